@@ -3,8 +3,8 @@
 # regression; TLC must then report the intended property's invariant as violated.  No cargo build needed.
 cd /verif/spec
 run() { # mut cfg prop
-  sed "s/  Mut = \"none\"/  Mut = \"$1\"/; s/INVARIANT NoViolation/INVARIANT Inv_$3/; /INVARIANT PrintDone/d" $2 > /tmp/mm.$$.cfg
-  extra=""; case $2 in sched.cfg) extra="-simulate num=3000 -depth 600";; esac
+  sed "s/  Mut = \"none\"/  Mut = \"$1\"/; s/INVARIANT NoViolation//; /INVARIANT PrintDone/d; /^INVARIANT Inv_/d; s/^SPECIFICATION Spec/SPECIFICATION Spec\nINVARIANT Inv_$3/" $2 > /tmp/mm.$$.cfg
+  extra=""   # sched_inv.cfg is exhaustive (breadth-first, stops at the first violation): no dependence on a random seed
   out=$(JAVA_TOOL_OPTIONS="-Xss1g -Xmx6g" timeout 600 tlc -workers 8 -metadir /verif/work/mm.$$ -cleanup -noGenerateSpecTE -config /tmp/mm.$$.cfg $extra MCOmaha.tla 2>&1)
   rm -rf /verif/work/mm.$$ /tmp/mm.$$.cfg
   if echo "$out" | grep -q "Invariant Inv_$3 is violated"; then echo "Mut=$1 $2 Inv_$3: VIOLATED (as intended)"; else echo "Mut=$1 $2 Inv_$3: NOT DETECTED"; fi
@@ -21,8 +21,8 @@ run M11 retry_nocup.cfg C08
 run M40 flow.cfg C04
 run M47 flow.cfg C10
 run M25 flow.cfg C18
-run M32 sched.cfg C05
+run M32 sched_inv.cfg C05
 run M48 flow.cfg C09
-run M13 sched.cfg C09
-run M15 sched.cfg C11
-run M16 sched.cfg C12
+run M13 sched_inv.cfg C09
+run M15 sched_inv.cfg C11
+run M16 sched_inv.cfg C12
